@@ -149,6 +149,7 @@ class Report:
         for v in self.violations:
             print(f"VIOLATION property={self.pid} replay={v['replay']}")
             print(f"  what: {v['what']}")
+            print(f"  key: {v['key']}")
         if self.violations:
             return 1
         if self.inconclusive:
